@@ -1,13 +1,17 @@
 (** C13 — Summaries and comparisons honour their statistical contracts.
-    Statements only; proofs are in Proofs/BenchMath.v and Proofs/BenchMathRender.v.
+    Statements only; proofs are in Proofs/BenchMath*.v (BenchMathInterp: the
+    median as an interpolation, BenchMathNormal: the mean interval,
+    BenchMathUntied: the untied exact path of the U-test, structurally).
     Models: Model/BenchMath.v (benchmath), Model/MoreMathU.v (go-moremath U-test,
     as it is), specifications: Model/BenchMathSpec.v. *)
 From Coq Require Import Sorting.Permutation.
 From Perf Require Import Base.Bytes Base.B64 Base.B64Order Base.FmtPct
      Model.StatsF Model.MoreMathU Model.BenchMath Model.BenchMathSpec
      Proofs.BenchMath Proofs.BenchMathRender Proofs.BenchMathCI Proofs.BenchMathMono
-     Proofs.BenchMathPerm Proofs.BenchMathSummary Proofs.BenchMathScale Proofs.B64Flocq.
+     Proofs.BenchMathPerm Proofs.BenchMathSummary Proofs.BenchMathScale Proofs.B64Flocq
+     Proofs.BenchMathInterp Proofs.BenchMathNormal Proofs.BenchMathUntied.
 From Perf Require Base.FmtFixed.
+From Perf Require Proofs.UDistUntied Proofs.BenchMathUntiedC11.
 From Flocq Require Core BinarySingleNaN.
 From Coq Require Reals Lra.
 Notation SF2R := Flocq.IEEE754.BinarySingleNaN.SF2R.
@@ -280,11 +284,9 @@ Proof. exact summary_nothing_warning_iff_infinite. Qed.
 Print Assumptions C13_median_ci_warning_iff_infinite.
 
 (** the ends bracket the middle of the sample: lo <= x_(ceil(n/2)) and
-    x_(floor(n/2)+1) <= hi. PARTIAL with respect to "the ends bracket the
-    centre": that the centre itself (binary64 R8 interpolation a + frac*(b-a)
-    at 1/2) lies between these two middle order statistics is not proved; it is
-    checked on every case (prop_ok: lm <= centre <= um). *)
-Theorem C13_median_ci_brackets_partial : forall choose_o approx_o,
+    x_(floor(n/2)+1) <= hi, for any measurements without NaN (no validity, size
+    or overflow hypothesis). The centre itself: C13_median_ci_brackets below. *)
+Theorem C13_median_ci_brackets_middle : forall choose_o approx_o,
   (forall n ci, approx_o n = Some ci -> 0 <= q_lo ci <= n / 2 /\ n / 2 + 1 <= q_hi ci <= n + 1) ->
   forall vs t conf sm,
   vs <> [] -> Forall nonnan vs ->
@@ -294,7 +296,7 @@ Theorem C13_median_ci_brackets_partial : forall choose_o approx_o,
   b64_le (sm_lo sm) (nth_f xs ((n - 1) / 2)) = true
   /\ b64_le (nth_f xs (n / 2)) (sm_hi sm) = true.
 Proof. exact summary_nothing_brackets_middle. Qed.
-Print Assumptions C13_median_ci_brackets_partial.
+Print Assumptions C13_median_ci_brackets_middle.
 
 (** C13's printer and the shared FmtFixed print the same scaled integer *)
 Theorem C13_fmt_scaled_is_fmtfixed : forall prec m e,
@@ -393,4 +395,221 @@ Proof.
   - repeat split; try reflexivity; try (cbn; lia).
     + vm_compute. tauto.
     + repeat constructor; discriminate.
+Qed.
+
+(** * The centre lies inside the interval; P lies in [0,1]; the untied exact
+    path is the permutation test (block added with Proofs/BenchMathInterp.v,
+    BenchMathNormal.v, BenchMathUntied.v, BenchMathUntiedC11.v) *)
+
+(** Sample.Quantile(0.5) on a sorted sample of n < 2^50 valid finite values
+    (binary64 R8: position 1/3 + 1/2*(n + 1/3), math.Modf, a + frac*(b - a)) lies
+    between the order statistics x_(max(1, n/2)) and x_(n/2 + 1) (1-based), with
+    Go's [<=]. The guard [median_no_overflow] is exact: the difference b - a of
+    the two order statistics the code interpolates between is finite (nothing
+    is required when the position selects a single value). The proof shows
+    that the computed integer part of the position is n/2, or (n odd) (n+1)/2
+    with fraction exactly 0, and that rounding keeps a + frac*(b-a) in [a, b]
+    for frac <= 1 - 2^-52 (Flocq; classical reals). *)
+Theorem C13_median_between_middle_order_statistics : forall xs,
+  xs <> [] -> Forall fin_valid xs -> Sorted.StronglySorted (fun a b => b64_le a b = true) xs ->
+  zlen xs < 2 ^ 50 ->
+  median_no_overflow xs = true ->
+  let n := zlen xs in
+  let m := quantile_f true xs f_half in
+  b64_le (nth_f xs (Z.max 0 (n / 2 - 1))) m = true /\ b64_le m (nth_f xs (n / 2)) = true.
+Proof. exact median_between. Qed.
+Print Assumptions C13_median_between_middle_order_statistics.
+
+(** assume-nothing summary: the interval ends bracket the centre,
+    lo <= median <= hi (full statement of DESIGN 7.13 [median_ci_brackets]);
+    [approx_band] as above for the n > 30 oracle *)
+Theorem C13_median_ci_brackets : forall choose_o approx_o,
+  (forall n ci, approx_o n = Some ci -> 0 <= q_lo ci <= n / 2 /\ n / 2 + 1 <= q_hi ci <= n + 1) ->
+  forall vs t conf sm,
+  vs <> [] -> Forall fin_valid vs -> zlen vs < 2 ^ 50 ->
+  median_no_overflow (sort_f vs) = true ->
+  summary_nothing choose_o approx_o (new_sample vs t) conf = Some sm ->
+  sm_center sm = quantile_f true (sort_f vs) f_half
+  /\ b64_le (sm_lo sm) (sm_center sm) = true /\ b64_le (sm_center sm) (sm_hi sm) = true.
+Proof. exact summary_nothing_brackets. Qed.
+Print Assumptions C13_median_ci_brackets.
+
+(** a simple sufficient condition for the guard: max - min does not overflow *)
+Theorem C13_median_no_overflow_of_range : forall xs,
+  xs <> [] -> Forall fin_valid xs -> Sorted.StronglySorted (fun a b => b64_le a b = true) xs ->
+  b64_is_finite (b64_sub (nth_f xs (zlen xs - 1)) (nth_f xs 0)) = true ->
+  median_no_overflow xs = true.
+Proof. exact median_no_overflow_of_range. Qed.
+Print Assumptions C13_median_no_overflow_of_range.
+
+(** the guard cannot be dropped: for {-2^1023, 2^1023} the difference
+    overflows and the reported median is +Inf, above the largest value *)
+Example C13_median_overflow_witness :
+  let xs := [b64_of_ZE (-1) 1023; b64_of_ZE 1 1023] in
+  Forall fin_valid xs /\ median_no_overflow xs = false
+  /\ quantile_f true xs f_half = S754_infinity false
+  /\ b64_le (quantile_f true xs f_half) (nth_f xs 1) = false.
+Proof. cbn zeta. split; [repeat constructor|]. vm_compute. repeat split. Qed.
+
+(** normal model: the centre is the incremental binary64 mean (StatsF.mean_f),
+    the level is the requested one, no warning, and the ends are mean -/+ w for
+    the half-width w of stats.MeanCI *)
+Theorem C13_normal_summary_centre_is_mean : forall tinv_o s conf sm,
+  summary_normal tinv_o s conf = Some sm ->
+  sm_center sm = mean_f (s_values s) /\ sm_conf sm = conf /\ sm_warn sm = []
+  /\ exists w, normal_halfwidth tinv_o (s_values s) conf = Some w
+               /\ sm_lo sm = b64_sub (mean_f (s_values s)) w /\ sm_hi sm = b64_add (mean_f (s_values s)) w.
+Proof. exact normal_summary_centre_is_mean. Qed.
+Print Assumptions C13_normal_summary_centre_is_mean.
+
+(** ... and lo <= mean <= hi. Oracle hypothesis: the t quantile at
+    alpha = (1 - conf)/2 is a valid binary64 <= 0 (the multiplier -tq is >= 0).
+    Guard [normal_no_overflow], exactly: no difference formed by the
+    incremental mean overflows, and the half-width (-tq) * sd / sqrt(n) is not
+    NaN (it may be +Inf: the interval is then the whole line). *)
+Theorem C13_normal_interval_contains_mean : forall tinv_o,
+  (forall a tq, tinv_o a = Some tq -> valid tq = true /\ b64_le tq f_zero = true) ->
+  forall vs t conf sm,
+  vs <> [] -> Forall fin_valid vs -> zlen vs < 2 ^ 53 ->
+  normal_no_overflow tinv_o (sort_f vs) conf = true ->
+  summary_normal tinv_o (new_sample vs t) conf = Some sm ->
+  sm_center sm = mean_f (sort_f vs)
+  /\ b64_is_finite (sm_center sm) = true
+  /\ b64_le (sm_lo sm) (sm_center sm) = true /\ b64_le (sm_center sm) (sm_hi sm) = true.
+Proof. exact normal_interval_contains_mean. Qed.
+Print Assumptions C13_normal_interval_contains_mean.
+
+(** A comparison reports a p-value in [0,1] for EVERY input outside the two
+    known-finding domains, which are boolean predicates on the inputs:
+      [tied_exact_domain x1 x2]  = the U-test sees ties and both sizes are <= 25
+                                   (C13_moremath_tied_exact_path),
+      [welch_panic_domain x1 x2] = Welch's test passes its error checks and
+                                   TDist.CDF is reached with NaN V/(V+t^2)
+                                   (C13_normal_compare_overflow_panic).
+    Outside them the model's comparison exists (no panic), every exact-path
+    result num/den of the U-test is a rational in [0,1] (untied branch:
+    2*CDF(min(U1,U2)) <= 1 by the symmetry of the Mann-Whitney counts, whatever
+    U is), and the float P is 0 (exact model), 1 (test error) or the oracle
+    value, hence in [0,1] under the oracle range hypothesis [in01]. *)
+Theorem C13_p_in_unit_interval_model : forall a s1 s2 p_u p_w,
+  tied_exact_domain (s_values s1) (s_values s2) = false ->
+  welch_panic_domain (s_values s1) (s_values s2) = false ->
+  exists c, compare (utest_outcome p_u) (welch_outcome p_w) a s1 s2 = Some c
+    /\ (a = ANothing -> forall num den,
+          utest (s_values s1) (s_values s2) = UExactP num den -> 0 <= num <= den /\ 0 < den)
+    /\ (in01 p_u -> in01 p_w -> in01 (c_p c)).
+Proof. exact p_in_unit_interval_model. Qed.
+Print Assumptions C13_p_in_unit_interval_model.
+
+(** the U-test alone, outside the tied exact path: no panic, exact results in [0,1] *)
+Theorem C13_utest_outside_tied_domain : forall x1 x2,
+  tied_exact_domain x1 x2 = false ->
+  match utest x1 x2 with
+  | UPanic => False
+  | UExactP num den => 0 <= num <= den /\ 0 < den
+  | _ => True
+  end.
+Proof. exact utest_outside_tied. Qed.
+Print Assumptions C13_utest_outside_tied_domain.
+
+(** ALL untied samples within the exact limit (n1, n2 <= 50, any N = n1 + n2
+    <= 100; no enumeration): the U-test's exact path returns exactly the exact
+    permutation p-value of the specification. Structural proof: the rank-sum U
+    of the model is the pair count; the model's table is the Mann-Whitney count
+    [ecount]; the number of splits of N distinct values with a given U is
+    [ecount] too (dual recurrence on the sorted pool); the two-sided rule
+    2*CDF(min(U1,U2)) agrees with min(1, 2*min(P(U<=u), P(U>=u))) by the
+    reflection symmetry of the counts. *)
+Theorem C13_p_is_exact_permutation_p_untied : forall x1 x2,
+  x1 <> [] -> x2 <> [] -> zlen x1 <= 50 -> zlen x2 <= 50 ->
+  Forall nonnan (x1 ++ x2) -> untied (x1 ++ x2) ->
+  utest_is_perm_p x1 x2 = true.
+Proof. exact utest_untied_is_perm_p. Qed.
+Print Assumptions C13_p_is_exact_permutation_p_untied.
+
+(** the pieces: U1, tie vector and tie flag of untied samples *)
+Theorem C13_u_statistic_untied : forall x1 x2,
+  Forall nonnan (x1 ++ x2) -> untied (x1 ++ x2) ->
+  u_statistic x1 x2
+  = mkUstat (zlen x1) (zlen x2) (two_u x1 x2) (repeat 1 (length x1 + length x2)) false.
+Proof. exact u_statistic_untied. Qed.
+Print Assumptions C13_u_statistic_untied.
+
+(** the model's untied table (the recurrence go-moremath runs on probabilities),
+    cut at [lim] entries, holds the Mann-Whitney counts, for all n, m, lim *)
+Theorem C13_untied_table_is_mann_whitney_count : forall lim n m,
+  (1 <= lim)%nat -> 0 <= n -> 0 <= m ->
+  (length (mw_counts lim n m) <= lim)%nat
+  /\ forall u, (u < lim)%nat -> nth u (mw_counts lim n m) 0 = ecount (Z.to_nat n) (Z.to_nat m) (Z.of_nat u).
+Proof. exact mw_counts_are_ecount. Qed.
+Print Assumptions C13_untied_table_is_mann_whitney_count.
+
+(** the counts: both recurrences, both symmetries, support and total *)
+Theorem C13_mann_whitney_count_laws : forall n m u,
+  ecount (S n) (S m) u = ecount n (S m) (u - Z.of_nat (S m)) + ecount (S n) m u
+  /\ ecount (S n) (S m) u = ecount n (S m) u + ecount (S n) m (u - Z.of_nat (S n))
+  /\ ecount n m u = ecount m n u
+  /\ ecount n m (Z.of_nat n * Z.of_nat m - u) = ecount n m u
+  /\ 0 <= ecount n m u
+  /\ (u < 0 \/ Z.of_nat n * Z.of_nat m < u -> ecount n m u = 0)
+  /\ fsum (ecount n m) (S (n * m)) = Perf.Model.UDistSpec.binom (n + m) n.
+Proof. exact ecount_laws. Qed.
+Print Assumptions C13_mann_whitney_count_laws.
+
+(** splitting distinct pooled values: the number of ways to form the first
+    sample with a given 2U, weighted by any predicate, is the weighted count *)
+Theorem C13_splits_count : forall l,
+  Sorted.StronglySorted (fun a b => b64_lt a b = true) l ->
+  forall n P K, (n <= length l)%nat -> (n * (length l - n) < K)%nat ->
+  count_if P (split_us n l) = wsum P n (length l - n) K.
+Proof. exact splits_count. Qed.
+Print Assumptions C13_splits_count.
+
+(** the same counts as the C11 specification (choices of n out of n+m untied
+    pooled values with U = u over count vectors; C11_mann_whitney_recurrence) *)
+Theorem C13_untied_count_is_c11_count : forall n m u,
+  ecount n m u = Perf.Proofs.UDistUntied.cuntied (Z.of_nat n) (Z.of_nat m) u.
+Proof. exact Perf.Proofs.BenchMathUntiedC11.ecount_is_cuntied. Qed.
+Print Assumptions C13_untied_count_is_c11_count.
+
+(** non-vacuity of the new hypotheses *)
+Example C13_example_median_guard :
+  let vs := [fl 3; fl 1; fl 2; fl 10] in
+  vs <> [] /\ Forall fin_valid vs /\ zlen vs < 2 ^ 50 /\ median_no_overflow (sort_f vs) = true
+  /\ quantile_f true (sort_f vs) f_half = b64_of_ZE 5 (-1).
+Proof.
+  cbn zeta. split; [discriminate|]. split; [repeat constructor|]. split; [reflexivity|].
+  vm_compute. split; reflexivity.
+Qed.
+
+Example C13_example_normal_guard :
+  let tinv_o := fun _ : b64 => Some (fl (-2)) in
+  let vs := [fl 4; fl 1; fl 2] in
+  (forall a tq, tinv_o a = Some tq -> valid tq = true /\ b64_le tq f_zero = true)
+  /\ Forall fin_valid vs
+  /\ normal_no_overflow tinv_o (sort_f vs) (b64_of_bits 0x3FEE666666666666) = true
+  /\ exists sm, summary_normal tinv_o (new_sample vs (mkThr f_zero)) (b64_of_bits 0x3FEE666666666666) = Some sm
+                /\ b64_lt (sm_lo sm) (sm_center sm) = true /\ b64_lt (sm_center sm) (sm_hi sm) = true.
+Proof.
+  cbn zeta. split; [intros a tq [= <-]; split; reflexivity|]. split; [repeat constructor|].
+  split; [vm_compute; reflexivity|]. eexists. split; [reflexivity|]. vm_compute. split; reflexivity.
+Qed.
+
+Example C13_example_domains :
+  tied_exact_domain [fl 1; fl 2] [fl 3; fl 4] = false
+  /\ welch_panic_domain [fl 1; fl 2] [fl 3; fl 4] = false
+  /\ tied_exact_domain [fl 2] [fl 1; fl 1; fl 1] = true
+  /\ welch_panic_domain overflow_x1 overflow_x2 = true
+  /\ in01 (b64_of_bits 0x3FB999999999999A).
+Proof. vm_compute. repeat split. Qed.
+
+(** 13 untied values (beyond the enumerated N <= 10) *)
+Example C13_example_untied :
+  let x1 := map fl [1; 3; 5; 7; 9; 11] in
+  let x2 := map fl [2; 4; 6; 8; 10; 12; 14] in
+  Forall nonnan (x1 ++ x2) /\ untied (x1 ++ x2) /\ zlen x1 <= 50 /\ zlen x2 <= 50
+  /\ utest x1 x2 = UExactP 764 1716 /\ perm_p x1 x2 = (764, 1716).
+Proof.
+  cbn zeta. cbn [map app]. split; [repeat constructor; discriminate|]. split; [repeat constructor|].
+  vm_compute. repeat split; try reflexivity; discriminate.
 Qed.
